@@ -671,6 +671,16 @@ func (c *wsConn) setToken(token json.RawMessage, tid string) {
 }
 
 func (c *wsConn) Access(s *Subscription, cb func(*rescache.Access)) {
+	// A throttled access check may be released after the connection is closed.
+	// No request must be sent on behalf of a closed connection.
+	c.mu.Lock()
+	disposing := c.disposing
+	c.mu.Unlock()
+	if disposing {
+		go cb(&rescache.Access{Error: reserr.ErrDisposing})
+		return
+	}
+
 	c.serv.cache.Access(s, c.token, false, func(access *rescache.Access, _ *codec.Meta) {
 		cb(access)
 	})
